@@ -20,7 +20,9 @@ where
         usize::try_from(n).map_err(|e| io::Error::new(io::ErrorKind::InvalidData, e))
     })?;
 
-    let header = read_header(reader).await?;
+    let header = read_header(reader)
+        .await
+        .map_err(|e| io::Error::new(io::ErrorKind::InvalidData, e))?;
     let reference_sequences = read_reference_sequences(reader, reference_sequence_count).await?;
     let unplaced_unmapped_record_count = read_unplaced_unmapped_record_count(reader).await?;
 
